@@ -49,6 +49,13 @@ func (r *registry) observe(kind string, m proto.Message) {
 	r.entries = append(r.entries, &entry{ptr: m, copy: proto.Clone(m), label: kind, step: r.step})
 }
 
+// count returns the number of registered messages.
+func (r *registry) count() int {
+	r.mu.Lock()
+	defer r.mu.Unlock()
+	return len(r.entries)
+}
+
 // verify re-compares every registered message with the copy taken when it crossed the boundary.
 func (r *registry) verify(after string) error {
 	r.mu.Lock()
